@@ -21,6 +21,9 @@ def gen_stream(rng, kind):
                 chunks.append((line + b"\n", rng.choice([0, 0, 10, 120, 600])))
         elif r < 0.65:
             chunks.append((bytes(rng.randrange(256) for _ in range(rng.randint(1, 200))), rng.choice([0, 30, 620])))
+        elif r < 0.72:
+            # large and incompressible: more than one zstd block (128 KiB), compresses worse than any internal output buffer
+            chunks.append((rng.randbytes(rng.choice([150000, 300000, 700000])), rng.choice([0, 0, 600])))
         elif r < 0.8:
             chunks.append((b"L" * rng.choice([8191, 8192, 8193, 70000]) + b"\n", 0))
         elif r < 0.9:
